@@ -767,6 +767,9 @@ impl<'a> Runner<'a> {
         let log = self.log.clone();
         let seed = self.inst.seed;
         let lack = args.get("lack").and_then(|l| l.as_str()).filter(|l| *l != "none").map(|l| l.to_string());
+        let twice = args.get("twice").and_then(|l| l.as_str()).map(|l| l.to_string());
+        let pskloc = args.get("pskloc").and_then(|l| l.as_u64());
+        let extra_psk = [0x5au8; 32];
         self.out.calls += 1;
         let eres = exp["res"].as_str().ok_or("exp.res")?;
         let r = catch_unwind(AssertUnwindSafe(|| -> Result<HandshakeState, snow::Error> {
@@ -786,6 +789,20 @@ impl<'a> Runner<'a> {
                 }
             }
             b = b.prologue(&prologue)?;
+            // a setter called a second time / a psk at an arbitrary location (C12: builder rules)
+            match twice.as_deref() {
+                Some("s") => b = b.local_private_key(s.as_ref().map(|k| k.as_slice()).unwrap_or(&extra_psk))?,
+                Some("rs") => b = b.remote_public_key(rs.as_ref().map(|k| k.as_slice()).unwrap_or(&extra_psk))?,
+                Some("prologue") => b = b.prologue(&prologue)?,
+                Some("psk") => {
+                    b = b.psk(3, &extra_psk)?;
+                    b = b.psk(3, &extra_psk)?;
+                },
+                _ => {},
+            }
+            if let Some(loc) = pskloc {
+                b = b.psk(loc as u8, &extra_psk)?;
+            }
             if let Some(k) = fixed_e.as_ref() {
                 b = b.fixed_ephemeral_key_for_testing_only(k);
             }
